@@ -33,8 +33,8 @@ def _merge(*ds):
 
 PROPS = {
     'C01': {
-        'proofs': ['Ww.Proofs.C01', 'Ww.Proofs.GenTie.C03'],
-        'gen_sections': ['Meta', 'pkg/session/data.go', 'Dec/acrValidate', 'pkg/openid/acr/acr.go'],
+        'proofs': ['Ww.Proofs.C01', 'Ww.Proofs.GenTie.C01'],
+        'gen_sections': ['Meta', 'pkg/session/data.go', 'Dec/acrValidate', 'pkg/openid/acr/acr.go', 'Dec/sessionCanRefresh', 'Dec/sessionShouldRefresh', 'Dec/sessionYieldsToken', 'Dec/acrValidate', 'pkg/session/session.go'],
         'drivers': [{'name': 'hist'}, {'name': 'meta'}],
         'reasons': ['C01.'],
         'class_fields': _merge(META_CLASS, HIST_CLASS),
@@ -135,8 +135,8 @@ PROPS = {
         'assumptions': ["crash happens at a store-command boundary"],
     },
     'C06': {
-        'proofs': ['Ww.Proofs.C06'],
-        'gen_sections': ['Meta', 'pkg/session/data.go'],
+        'proofs': ['Ww.Proofs.C06', 'Ww.Proofs.GenTie.C01'],
+        'gen_sections': ['Meta', 'pkg/session/data.go', 'Dec/sessionCanRefresh', 'Dec/sessionShouldRefresh', 'Dec/sessionYieldsToken', 'Dec/acrValidate', 'pkg/session/session.go'],
         'drivers': [{'name': 'hist'}, {'name': 'meta'}],
         'reasons': ['C06.'],
         'class_fields': _merge(META_CLASS, HIST_CLASS),
@@ -151,8 +151,8 @@ PROPS = {
         'assumptions': ["H-CLOCK", "H-AEAD"],
     },
     'C11': {
-        'proofs': ['Ww.Proofs.C11'],
-        'gen_sections': ['Meta'],
+        'proofs': ['Ww.Proofs.C11', 'Ww.Proofs.GenTie.C01'],
+        'gen_sections': ['Meta', 'Dec/sessionCanRefresh', 'Dec/sessionShouldRefresh', 'Dec/sessionYieldsToken', 'Dec/acrValidate', 'pkg/session/session.go'],
         'drivers': [{'name': 'fault', 'timeout': 1500}, {'name': 'hist'}],
         'reasons': ['C11.'],
         'class_fields': _merge(HIST_CLASS, {'fault': ['handler', 'prestate', 'fpos', 'fkind', 'fcount', 'status', 'upauth'], 'faultdry': ['handler', 'prestate']}),
@@ -279,8 +279,8 @@ PROPS = {
         'assumptions': ["H-BROWSER"],
     },
     'C08': {
-        'proofs': ['Ww.Proofs.C08', 'Ww.Proofs.C07'],
-        'gen_sections': ['Meta', 'Consts', 'pkg/session/data.go'],
+        'proofs': ['Ww.Proofs.C08', 'Ww.Proofs.C07', 'Ww.Proofs.GenTie.C01'],
+        'gen_sections': ['Meta', 'Consts', 'pkg/session/data.go', 'Dec/sessionCanRefresh', 'Dec/sessionShouldRefresh', 'Dec/sessionYieldsToken', 'Dec/acrValidate', 'pkg/session/session.go'],
         'drivers': [{'name': 'meta'}, {'name': 'hist'}, {'name': 'sched'}],
         'reasons': ['C08.'],
         'class_fields': _merge(META_CLASS, HIST_CLASS, {'sched': ['store', 'procs', 'crash', 'trace', 'statuses', 'exists']}),
